@@ -7,6 +7,8 @@ TC09c  `geometry_equal`, the whole decision (array comparisons as parameters)  -
 TC09d  the per-axis tests of both bounds checks (`map_reference_to_indices`,
        `VolumeToVolumeTransformer.__call__`)                                   -> Gen.refBoundsAxis, Gen.v2vBoundsAxis
 TC09e  `match_geometry`, the refusals before the alignment loops (FoR, CS)     -> Gen.mgHead
+TC09f  structural fingerprint: ordered top-level operations (with guards) of `match_geometry`, of the
+       transformer and of `map_reference_to_indices`                           -> Gen.mgSteps, Gen.v2vSteps, Gen.refIdxSteps
 
 Loops are not translated: the selectors take the loop *body*, check (textually) what the loop
 ranges over, and the folds are written by hand in `Model/Match.lean`.  Everything that is checked
@@ -337,7 +339,169 @@ def build_matchhead(tree):
     return text, span_sha(head)
 
 
+# ------------------------------------------------------------------------------------------ TC09f
+def _assign_is(st, target, value):
+    return isinstance(st, ast.Assign) and len(st.targets) == 1 and _norm(_txt(st.targets[0])) == _norm(target) \
+        and _norm(_txt(st.value)) == _norm(value)
+
+
+def _guard_lean(test):
+    """Lean Bool expression of a guard over the three flags"""
+    from py2lean import SymExec
+    se = SymExec({})
+    env = {n: ('bool', n) for n in ('requires_permute', 'requires_pad', 'requires_crop')}
+    b = se.as_bool(se.ev(test, env))
+    if se.lets:
+        raise Unsupported('guard needs intermediate bindings: ' + _txt(test))
+    return b
+
+
+def build_order(tree):
+    """structural fingerprint: the ordered top-level operations of `match_geometry` (with their guards over the
+    flags) and of the two index-mapping entry points"""
+    fn = find_func(tree, '_VolumeBase.match_geometry')
+    body = list(strip_doc(fn.body))
+    steps = []          # (op, guard lean expr)
+    i = 0
+    # head: everything before `permute_indices = []` (translated by TC09e)
+    while i < len(body) and not _assign_is(body[i], 'permute_indices', '[]'):
+        if not isinstance(body[i], ast.If):
+            raise Unsupported('unexpected statement in the head of match_geometry: ' + _txt(body[i])[:80])
+        i += 1
+    if i == 0 or i == len(body):
+        raise Unsupported('head of match_geometry / `permute_indices = []` not found')
+    steps.append(('head', 'true'))
+    seen = set()
+    flags_init = {}
+    for st in body[i:]:
+        if _assign_is(st, 'permute_indices', '[]') or _assign_is(st, 'step_sizes', '[]') \
+                or _assign_is(st, 'crop_slices', '[]') or _assign_is(st, 'pad_values', '[]'):
+            if 'plan' in seen and _txt(st.targets[0]) in ('crop_slices', 'pad_values') or \
+                    'align' in seen and _txt(st.targets[0]) in ('permute_indices', 'step_sizes'):
+                raise Unsupported('accumulator re-initialised after its loop: ' + _txt(st))
+            continue
+        if _assign_is(st, 'requires_crop', 'False') or _assign_is(st, 'requires_pad', 'False'):
+            if 'plan' in seen:
+                raise Unsupported('flag re-initialised after the crop/pad loop')
+            flags_init[_txt(st.targets[0])] = True
+            continue
+        if isinstance(st, ast.For) and 'other.unit_vectors()' in _txt(st.iter):
+            steps.append(('align', 'true')); seen.add('align'); continue
+        if _assign_is(st, 'requires_permute', 'permute_indices != [0, 1, 2]'):
+            if 'align' not in seen:
+                raise Unsupported('requires_permute computed before the alignment loops')
+            seen.add('requires_permute'); continue
+        if isinstance(st, ast.Assign) and _txt(st.targets[0]) == 'origin_offset':
+            if 'permute' not in seen:
+                raise Unsupported('origin_offset computed before the permutation')
+            continue
+        if isinstance(st, ast.For) and 'step_sizes' in _txt(st.iter):
+            if set(flags_init) != {'requires_crop', 'requires_pad'}:
+                raise Unsupported('requires_crop / requires_pad are not initialised to False before the crop/pad loop')
+            steps.append(('plan', 'true')); seen.add('plan'); continue
+        if isinstance(st, ast.If) and len(st.body) == 1:
+            b = st.body[0]
+            if _assign_is(b, 'new_volume', 'self.permute_spatial_axes(permute_indices)'):
+                if not (len(st.orelse) == 1 and _assign_is(st.orelse[0], 'new_volume', 'self')):
+                    raise Unsupported('else branch of the permutation is not `new_volume = self`')
+                if 'requires_permute' not in seen:
+                    raise Unsupported('permutation before requires_permute is known')
+                steps.append(('permute', _guard_lean(st.test))); seen.add('permute'); continue
+            if st.orelse:
+                raise Unsupported('unexpected else branch: ' + _txt(st)[:80])
+            if _assign_is(b, 'new_volume', 'new_volume.copy()'):
+                steps.append(('copy', _guard_lean(st.test))); continue
+            if _assign_is(b, 'new_volume', 'new_volume.pad(pad_values, mode=mode, constant_value=constant_value, '
+                                           'per_channel=per_channel)'):
+                steps.append(('pad', _guard_lean(st.test))); continue
+            if _assign_is(b, 'new_volume', 'new_volume[tuple(crop_slices)]'):
+                steps.append(('crop', _guard_lean(st.test))); continue
+            if isinstance(b, ast.Raise) and 'RuntimeError' in _txt(b) and \
+                    _norm(_txt(st.test)) == _norm('not new_volume.geometry_equal(other, tol=tol)'):
+                steps.append(('finalCheck', 'true')); continue
+        if isinstance(st, ast.Return):
+            _expect(st.value, 'new_volume', 'return value of match_geometry')
+            if st is not body[-1]:
+                raise Unsupported('return before the end of match_geometry')
+            continue
+        raise Unsupported('statement of match_geometry not recognised: ' + _txt(st)[:100])
+    rows = [f"(.{op}, fun requires_permute requires_pad requires_crop => {g})" for op, g in steps]
+    t1 = ("/-- `match_geometry`: its top-level operations in source order, each with its guard over "
+          "(requires_permute, requires_pad, requires_crop).  Checked textually: the arguments of every call, the "
+          "initialisation of the accumulators and flags, `requires_permute = permute_indices != [0, 1, 2]`, "
+          "`else: new_volume = self`, `return new_volume`. -/\n"
+          "def mgSteps : List (HdVerif.Match.MgOp × (Bool → Bool → Bool → Bool)) :=\n  [" + ",\n   ".join(rows) + "]")
+
+    # ---- VolumeToVolumeTransformer
+    init = find_func(tree, 'VolumeToVolumeTransformer.__init__')
+    ib = [s for s in strip_doc(init.body)]
+    want = {'self._affine': 'volume_to.inverse_affine @ volume_from.affine', 'self._output_shape': 'volume_to.spatial_shape',
+            'self._round_output': 'round_output', 'self._check_bounds': 'check_bounds'}
+    for st in ib:
+        if not (isinstance(st, ast.Assign) and _txt(st.targets[0]) in want and _norm(_txt(st.value)) == _norm(want[_txt(st.targets[0])])):
+            raise Unsupported('VolumeToVolumeTransformer.__init__: unexpected statement ' + _txt(st)[:80])
+    call = find_func(tree, 'VolumeToVolumeTransformer.__call__')
+    ops = ['product']
+    for st in strip_doc(call.body):
+        t = _norm(_txt(st))
+        if isinstance(st, ast.If) and 'indices.ndim' in t:
+            continue                                   # argument shape validation
+        if isinstance(st, ast.Assign) and _txt(st.targets[0]) in ('input_is_int', 'augmented_input'):
+            continue
+        if _assign_is(st, 'augmented_output', 'np.dot(self._affine, augmented_input)'):
+            ops.append('apply-dot'); continue
+        if _assign_is(st, 'output_indices', 'augmented_output[:3, :].T'):
+            if ops[-1] != 'apply-dot':
+                raise Unsupported('output_indices is not taken from the product')
+            ops[-1] = 'apply'; continue
+        if isinstance(st, ast.If) and _norm(_txt(st.test)) == 'self._round_output':
+            if 'np.around(output_indices)' not in _txt(st.body[-1]):
+                raise Unsupported('rounding branch does not call np.around(output_indices)')
+            for e in st.orelse:
+                if 'around' in _txt(e) or 'round(' in _txt(e):
+                    raise Unsupported('rounding in the non-rounding branch')
+            ops.append('round'); continue
+        if isinstance(st, ast.If) and _norm(_txt(st.test)).startswith('self._check_bounds'):
+            ops.append('check'); continue
+        if isinstance(st, ast.Return):
+            _expect(st.value, 'output_indices', 'return value of the transformer'); continue
+        raise Unsupported('VolumeToVolumeTransformer.__call__: statement not recognised: ' + _txt(st)[:80])
+    t2 = ("/-- `VolumeToVolumeTransformer`: matrix product in `__init__`, then the order of operations of `__call__`. -/\n"
+          "def v2vSteps : List HdVerif.Match.IdxOp := [" + ", ".join('.' + o for o in ops) + "]")
+
+    # ---- map_reference_to_indices
+    inv = find_func(tree, '_VolumeBase.inverse_affine')
+    ivb = strip_doc(inv.body)
+    if not (len(ivb) == 1 and isinstance(ivb[0], ast.Return) and _norm(_txt(ivb[0].value)) == 'np.linalg.inv(self._affine)'):
+        raise Unsupported('inverse_affine is no longer np.linalg.inv(self._affine)')
+    mr = find_func(tree, '_VolumeBase.map_reference_to_indices')
+    ops2 = []
+    for st in strip_doc(mr.body):
+        t = _norm(_txt(st))
+        if isinstance(st, ast.If) and 'coordinates.ndim' in t:
+            continue
+        if isinstance(st, ast.Assign) and _txt(st.targets[0]) == 'reference_coordinates':
+            continue
+        if _assign_is(st, 'indices', 'np.dot(self.inverse_affine, reference_coordinates)'):
+            ops2.append('inverse'); continue
+        if _assign_is(st, 'indices', 'indices[:3, :].T'):
+            ops2.append('apply'); continue
+        if isinstance(st, ast.If) and t.startswith('ifcheck_bounds'):
+            ops2.append('check'); continue
+        if isinstance(st, ast.If) and _norm(_txt(st.test)) == 'round_output':
+            if not (len(st.body) == 1 and 'np.around(indices)' in _txt(st.body[0]) and len(st.orelse) == 1
+                    and _norm(_txt(st.orelse[0])) == 'returnindices'):
+                raise Unsupported('rounding branch of map_reference_to_indices changed')
+            ops2.append('round'); continue
+        raise Unsupported('map_reference_to_indices: statement not recognised: ' + _txt(st)[:80])
+    t3 = ("/-- `map_reference_to_indices`: order of operations (`inverse_affine` is `np.linalg.inv(self._affine)`). -/\n"
+          "def refIdxSteps : List HdVerif.Match.IdxOp := [" + ", ".join('.' + o for o in ops2) + "]")
+    sha = span_sha(body) + span_sha(strip_doc(call.body))[:12] + span_sha(strip_doc(mr.body))[:12] + span_sha(ib)[:8]
+    return t1 + '\n\n' + t2 + '\n\n' + t3, sha
+
+
 TARGETS = {
+    'TC09f': {'file': 'volume.py', 'build': build_order, 'imports': ['HdVerif.Model.MatchOps']},
     'TC09e': {'file': 'volume.py', 'build': build_matchhead},
     'TC09a': {'file': 'volume.py', 'build': build_align, 'imports': IMPORTS},
     'TC09b': {'file': 'volume.py', 'build': build_croppad, 'imports': IMPORTS},
